@@ -4,11 +4,11 @@ META = dict(
     engine="seq", level="model_checking",
     technique="explicit-state, level-synchronous BFS over Share/Deck/Store-time operation histories, replay-from-history on fresh real objects, "
               "canonical-state dedupe (time-translation invariant), reference model compared after every step",
-    text="All interleavings, to depth 4 (quick) / 6 (thorough) with at most 3 queued deck elements, of value assignment, update / change / create in keyword, pair-list and dict form, item assignment and "
+    text="All interleavings, to depth 4 (quick) / 6 (thorough) with at most 2 / 3 queued deck elements, of value assignment, update / change / create in keyword, pair-list and dict form, item assignment and "
          "deletion, pop / popitem / clear / setdefault / insert, every way of adding a field under an invalid name (leading underscore, leading digit, "
          "empty, trailing newline, name of an existing Data attribute), stampNow, store time advance, detaching and re-attaching the store, and deck "
          "push / pull / gulp(None) / gulp(x) / spew with truthy and falsy elements (0, 0.0, False, '', (), [] -- compared by type and value).  After every transition the real share (ordered fields incl. the raw attribute dict, stamp, deck, "
-         "store link, store time) must equal the model and the call's result or exception must match; on every new state ~40 read-only views (keys, "
+         "store link, store time) must equal the model and the call's result or exception must match; on every new state ~55 read-only views (the field views once per distinct fields/stamp/store combination, the deck views on every state) (keys, "
          "values, items, iteration, len, in, [], get, fetch, has_key, value, sift, copy, deck list) are compared.  Dedupe on (fields, stamp age, deck, attached).",
     note="Whether an invalid field name is refused by raising or by silently doing nothing is not compared (only that nothing changes); pushing None "
          "onto the deck is not part of the alphabet (the statement's spew clause presumes gulp's None filter); Share.reorder is outside the statement.",
@@ -183,7 +183,7 @@ def build_ops():
     # stamps, time, store link
     op("sh.stampNow()", "stampNow", lambda st: ((st[0], st[4] if st[3] else None) + st[2:], ("ok", st[4] if st[3] else None)))
     op("s.advanceStamp(0.25)", "advanceStamp", lambda st: (st[:4] + (st[4] + 0.25,), OK))
-    op("s.changeStamp(s.stamp + 1.0)", "changeStamp", lambda st: (st[:4] + (st[4] + 1.0,), OK))
+    op("s.changeStamp(s.stamp + 0.25)", "changeStamp", lambda st: (st[:4] + (st[4] + 0.25,), OK))
     op("sh.changeStore(None)", "changeStore", lambda st: (st[:3] + (False,) + st[4:], OK))
     op("sh.changeStore(s)", "changeStore", lambda st: (st[:3] + (True,) + st[4:], OK))
     # deck
@@ -213,11 +213,16 @@ def build_ops():
 
 
 OPS = build_ops()
-DECKCAP = 3       # 8 element values ^ deck length is what makes the state space grow; FIFO order needs no more than 3
+FALSY_ADDERS = {"sh.deck.gulp(0)", "sh.deck.gulp(0.0)", "sh.deck.gulp(False)", "sh.deck.gulp('')", "sh.deck.gulp(())",
+                "sh.deck.gulp([])", "sh.deck.push(0)", "sh.push('')"}
+FALSY_ONLY_INTO_EMPTY = core.TIER == "quick"
+DECKCAP = 2 if core.TIER == "quick" else 3     # 8 element values ^ deck length dominates the state space; FIFO order shows with 2
 
 
-def observations(st):
+def observations(st, full=True):
     f, stamp, deck, att, now = st
+    if not full:          # same fields/stamp/store as a state already viewed: only the deck views can differ
+        return [("list(sh.deck)", ("ok", list(deck))), ("len(sh.deck)", ("ok", len(deck))), ("bool(sh.deck)", ("ok", bool(deck)))]
     keys = [k for k, _ in f]
     vals = [v for _, v in f]
     obs = [("sh.stamp", ("ok", stamp)), ("s.stamp", ("ok", now)), ("sh.value", ("ok", val(f, "value") if has(f, "value") else None)),
@@ -280,10 +285,10 @@ def texts(hist):
     return [OPS[i][0] for i in hist]
 
 
-def observe(part, ns, st, hist):
+def observe(part, ns, st, hist, full=True):
     before = dump(ns)
     where = "; ".join(texts(hist)) or "(new share)"
-    for text, exp in observations(st):
+    for text, exp in observations(st, full):
         got = run_text(text, ns)
         part.evaluations += 1
         if not matches(got, exp, ns):
@@ -311,6 +316,10 @@ def expand(arg):
         for i, (text, name, model) in enumerate(OPS):
             if len(st[2]) >= DECKCAP and name in ("push", "gulp") and text != "sh.deck.gulp(None)":
                 continue                       # stated bound: the deck holds at most DECKCAP elements
+            if FALSY_ONLY_INTO_EMPTY and st[2] and text in FALSY_ADDERS:
+                continue                       # quick tier: a falsy element is only queued into an empty deck
+            if st[2] and name.startswith("invalid:"):
+                continue                       # invalid-name attempts (35 self loops) are explored with an empty deck only
             ns = replay(storing, hist)
             got = run_text(text, ns)
             st2, exp = model(st)
@@ -356,9 +365,9 @@ def observe_shard(arg):
     core.use_repo()
     from ioflo.base import storing
     part = core.Part()
-    for hist, st in states:
+    for hist, st, full in states:
         ns = replay(storing, hist)
-        observe(part, ns, st, hist)
+        observe(part, ns, st, hist, full)
     return part
 
 
@@ -423,7 +432,17 @@ def run():
     level = [((), ST0)]
     ck.part.traces += 1
     workers = Workers()
-    ck.merge(workers.map("observe", [(level,)]))
+    viewed = set()          # (fields, raw dict, stamp age, attached) combinations whose full view battery has run
+
+    def flag(states):
+        out = []
+        for h, st in states:
+            age = None if st[1] is None else st[4] - st[1]
+            key = (repr(st[0]), age, st[3])
+            out.append((h, st, key not in viewed))
+            viewed.add(key)
+        return out
+    ck.merge(workers.map("observe", [(flag(level),)]))
     per_level = [1]
     for d in range(depth):
         if not level:
@@ -440,7 +459,7 @@ def run():
                     if len(seen) % 997 == 3:
                         ck.part.sample(dict(history=texts(h), state=k))
         if nxt:
-            ck.merge(workers.map("observe", [(c,) for c in chunks(nxt, core.NPROC * 2)]))
+            ck.merge(workers.map("observe", [(c,) for c in chunks(flag(nxt), core.NPROC * 2)]))
         per_level.append(len(nxt))
         level = nxt
     workers.close()
@@ -452,6 +471,9 @@ def run():
         "invalid names: leading underscore, leading digit, empty, trailing newline, and the name of an attribute every Data object already has (_show)",
         "update/change/create return the share (chaining is relied upon by Store itself); del/pop/popitem of a missing field raise KeyError, pull on an empty deck IndexError",
         "the deck holds at most %d elements (adding operations are not applied beyond that)" % DECKCAP,
+        "the 35 invalid-field-name attempts are applied in every field/stamp/store state but only while the deck is empty (Deck and Data share no code)",
+        "quick tier: falsy elements (0, 0.0, False, '', (), []) are only queued into an empty deck (falsy-then-truthy orders are covered, "
+        "truthy-then-falsy and falsy-falsy only in thorough)",
         "None is never pushed onto the deck (spew's 'None only when empty' presumes gulp's filter)",
         "dedupe uses the stamp's age (store stamp minus share stamp): Share code only copies store.stamp, so behaviour is time-translation invariant",
     ]
